@@ -51,16 +51,23 @@ package nom
 //@   assert[antisymmetric] ab && ba ==> bytescmpv(types.headerBytes(list[a].Address, list[a].Height, list[a].Hash), types.headerBytes(list[b].Address, list[b].Height, list[b].Hash)) == 0
 //@   assert[transitive] ab && bc ==> ac
 
-// The momentum hash is SHA3-256 over the concatenation of the covered fields; the hash function stays uninterpreted.
-// contentHash is the digest of the header list (MomentumContent.Hash), a function of the content slice identity here.
-//@ spec mHashUF(version int, chainId int, prev arr, height int, timestamp int, data int, content int, changes arr) arr
+// The momentum hash (property C13) is SHA3-256 over the fixed-width concatenation, in this order, of: version, chain
+// identifier, previous hash, height, timestamp, digest of the data, digest of the content (the sorted header list), changes
+// hash. contentHash is the content digest as a byte string, a function of the content slice identity here.
+// NOT covered, by this definition: Hash itself, PublicKey, Signature, the cached Timestamp, producer.
 //@ spec contentHash(arrId int, off int, n int) int
+//@ spec mHashUF(version int, chainId int, prev arr, height int, timestamp int, data int, content int, changes arr) arr = sha3v(bcat(common.be64enc(version), bcat(common.be64enc(chainId), bcat(arrbytes(prev, 32), bcat(common.be64enc(height), bcat(common.be64enc(timestamp), bcat(arrbytes(sha3v(data), 32), bcat(content, arrbytes(changes, 32)))))))))
 //@ spec mHashOf(m *Momentum) arr = mHashUF(m.Version, m.ChainIdentifier, m.PreviousHash, m.Height, m.TimestampUnix, bytesval(m.Data), contentHash(m.Content.arr, m.Content.off, len(m.Content)), m.ChangesHash)
 
-//@ func Momentum.ComputeHash(m)
+//@ func MomentumContent.Hash(mc)
 //@   trusted
+//@   requires mc != nil
+//@   ensures arrbytes(result, 32) == contentHash(deref(mc).arr, deref(mc).off, len(deref(mc)))
+//@   modifies nothing
+
+//@ func Momentum.ComputeHash(m)
 //@   requires m != nil
-//@   ensures result == mHashOf(m)
+//@   ensures[covers-exactly-the-listed-fields] result == mHashOf(m)
 //@   modifies nothing
 
 // ghost: set only by the supervisor's Apply* (vm contracts), required by the chain's insert operations (chain contracts)
